@@ -358,7 +358,7 @@ func (e *refEnv) call(n *rnode, cur any, sc *refScope) (any, int) {
 			return nil, ecValue
 		}
 		l := utf8.RuneCountInString(s)
-		if w-l > 16 {
+		if w-l > 160 {
 			return nil, ecUnspecified // result larger than the harness bound
 		}
 		for i := l; i < w; i++ {
@@ -476,12 +476,9 @@ func (e *refEnv) call(n *rnode, cur any, sc *refScope) (any, int) {
 				}
 				return d, ecNone
 			}
-			if s == "" || s == "null" {
-				return nil, ecNone // not numbers under any reading
-			}
-			if _, err := decimal128.Parse(s); err == nil {
-				return nil, ecUnspecified // text the decimal library accepts although it is not a JSON number
-			}
+			// "Any string that does not conform to the json-number production is
+			// converted to null": a sign, a bare fraction, a trailing point, leading
+			// zeros, underscores, surrounding blanks, Inf and NaN are not numbers
 			return nil, ecNone
 		}
 		return nil, ecNone
